@@ -329,3 +329,97 @@ V('c05-twin-close-finally', 'C05', 'R5.4', STATE,
                 await self.session.expunge_mailbox(selected)
         finally:
             self._selected = None''', expect='silent')
+
+# ---------------------------------------------------------------- C12
+V('c12-revert-move-fix', 'C12', 'R12.1', SESS,
+  '''            -> tuple[CopyUid | None, SelectedMailbox]:
+        if selected.readonly:
+            raise MailboxReadOnly()
+        mbx = await self._get_selected(selected)''',
+  '''            -> tuple[CopyUid | None, SelectedMailbox]:
+        mbx = await self._get_selected(selected)''')
+V('c12-store-guard-dropped', 'C12', 'R12.1', SESS,
+  '''        if selected.readonly:
+            raise MailboxReadOnly()
+        mbx = await self._get_selected(selected)
+        permanent_flags''', '''        mbx = await self._get_selected(selected)
+        permanent_flags''')
+V('c12-expunge-guard-after', 'C12', 'R12.1', SESS,
+  '''        if selected.readonly:
+            raise MailboxReadOnly()
+        mbx = await self._get_selected(selected)
+        if uid_set is None:
+            uid_set = SequenceSet.all(uid=True)
+        expunge_uids = await mbx.find_deleted(uid_set, selected)
+        await mbx.delete(expunge_uids)''',
+  '''        mbx = await self._get_selected(selected)
+        if uid_set is None:
+            uid_set = SequenceSet.all(uid=True)
+        expunge_uids = await mbx.find_deleted(uid_set, selected)
+        await mbx.delete(expunge_uids)
+        if selected.readonly:
+            raise MailboxReadOnly()''')
+V('c12-copy-dest-unguarded', 'C12', 'R12.1', SESS,
+  '''        dest = await self._get_mailbox(mailbox, try_create=True)
+        if dest.readonly:
+            raise MailboxReadOnly(mailbox)
+        dest_selected = self._pick_selected(selected, dest)
+        uids: list[tuple[int, int]] = []
+        for _, source_uid in selected.messages.get_uids(sequence_set):
+            dest_uid = await mbx.copy(''',
+  '''        dest = await self._get_mailbox(mailbox, try_create=True)
+        dest_selected = self._pick_selected(selected, dest)
+        uids: list[tuple[int, int]] = []
+        for _, source_uid in selected.messages.get_uids(sequence_set):
+            dest_uid = await mbx.copy(''')
+V('c12-append-wrong-guard', 'C12', 'R12.1', SESS,
+  '''        if mbx.readonly:
+            raise MailboxReadOnly(name)
+        dest_selected''', '''        if selected and selected.readonly:
+            raise MailboxReadOnly(name)
+        dest_selected''')
+V('c12-set-seen-ignores-readonly', 'C12', 'R12.1', STATE,
+  '''        set_seen = not self.selected.readonly and \\
+            any(attr.set_seen for attr in cmd.attributes)''',
+  '''        set_seen = any(attr.set_seen for attr in cmd.attributes)''')
+V('c12-claim-unconditional', 'C12', 'R12.1', SESS,
+  '''        if not selected.readonly:
+            await mbx.claim_recent(selected)''',
+  '''        await mbx.claim_recent(selected)''')
+V('c12-examine-ignored', 'C12', 'R12.2', SESS,
+  'selected = SelectedMailbox(mbx.mailbox_id, readonly or mbx.readonly,',
+  'selected = SelectedMailbox(mbx.mailbox_id, mbx.readonly,')
+V('c12-readonly-setter', 'C12', 'R12.5', SEL,
+  '''    @property
+    def messages(self) -> SynchronizedMessages:''', '''    @readonly.setter
+    def readonly(self, readonly: bool) -> None:
+        self._readonly = readonly
+
+    @property
+    def messages(self) -> SynchronizedMessages:''')
+V('c12-close-expunges-ro', 'C12', 'R12.4', STATE,
+  '''        if not selected.readonly:
+            await self.session.expunge_mailbox(selected)''',
+  '''        await self.session.expunge_mailbox(selected)''',
+  edits=[(STATE, '''        if not selected.readonly:
+            await self.session.expunge_mailbox(selected)''',
+          '''        await self.session.expunge_mailbox(selected)'''),
+         (SESS, '''        if selected.readonly:
+            raise MailboxReadOnly()
+        mbx = await self._get_selected(selected)
+        if uid_set is None:''', '''        mbx = await self._get_selected(selected)
+        if uid_set is None:''')])
+# twins
+V('c12-twin-guard-else', 'C12', 'R12.1', SESS,
+  '''        if not selected.readonly:
+            await mbx.claim_recent(selected)''',
+  '''        if selected.readonly:
+            pass
+        else:
+            await mbx.claim_recent(selected)''', expect='silent')
+V('c12-twin-set-seen-local', 'C12', 'R12.1', STATE,
+  '''        set_seen = not self.selected.readonly and \\
+            any(attr.set_seen for attr in cmd.attributes)''',
+  '''        wants_seen = any(attr.set_seen for attr in cmd.attributes)
+        set_seen = wants_seen and not self.selected.readonly''',
+  expect='silent')
